@@ -82,7 +82,7 @@ reg(
     native("mon-crypto", "keystore"),
     "model-based lockstep testing (BTreeMap model) of MemStore and the fs Store with directory-listing invariant",
     "Random histories of 40..240 operations over 6 ids (all-zero, all-ff, leading zeros, random): entry->insert, entry->drop "
-    "unused, get, remove, try_insert, occupied get (once/twice), occupied remove, occupied get-then-remove, reopen (drop + "
+    "unused, get, remove, try_insert, occupied get (once/twice), occupied remove, occupied get-then-remove, vacant insert of a key whose encoding fails part-way (fs store: the id must stay vacant, no file left), reopen (drop + "
     "Store::open on the same directory) and try_clone, applied to MemStore, the file-system Store (vcore::Scratch dir on tmpfs) "
     "and a BTreeMap; every result (vacant/occupied, key returned by value, AlreadyExists) is compared. After every dropped "
     "vacant entry, every reopen, every 8th step and at the end the directory listing must be exactly the model's ids (the "
